@@ -7,7 +7,7 @@ import EpsModel.Hash
 namespace Eps
 
 /-- `MAGIC = u64::from_ne_bytes(*b"epserde ")`, as the bytes written. -/
-def magicBytes : B := ascii "epserde "
+def magicBytes : B := [0x65, 0x70, 0x73, 0x65, 0x72, 0x64, 0x65, 0x20]  -- b"epserde "
 def magic : Nat := leVal magicBytes
 /-- `MAGIC_REV`: what a reader of the opposite endianness sees. -/
 def magicRev : Nat := leVal magicBytes.reverse
